@@ -16,11 +16,17 @@ fn name_byte() -> BoxedStrategy<u8> {
     .boxed()
 }
 
+fn component_byte(b: u8) -> bool {
+    b != b'/' && !m::is_ws(b)
+}
+
 fn component() -> BoxedStrategy<Vec<u8>> {
     prop_oneof![
         60 => prop::collection::vec(name_byte(), 1..=12),
         // now and then a very long component (names are paths, not NAME_MAX-limited tokens)
         1 => (prop::collection::vec(name_byte(), 1..=6), 100usize..400).prop_map(|(v, n)| (0..n).map(|i| if v[i % v.len()] == 0 { b'x' } else { v[i % v.len()] }).collect::<Vec<u8>>()),
+        // a token of the library's own source (no '/', no white space), alone or as a suffix
+        5 => (prop::option::weighted(0.5, prop::collection::vec(name_byte(), 1..=6)), crate::engine::dict::byte_token(component_byte, b"x")).prop_map(|(pre, t)| [pre.unwrap_or_default(), t].concat()),
         20 => prop::sample::select(vec![
             &b"foo-1.0.tar.gz"[..], b"caf\xe9.tar.gz", b"\xc3\xa0.tgz", b"\xc3\x85ngstr\xc3\xb6m.zip", b"\xa0", b"\x85", b"a\xa0b", b"(x)", b"x)", b"(x",
             b"a=b", b"#c", b"$d", b"sub", b"..."
@@ -44,6 +50,13 @@ fn patch_component() -> BoxedStrategy<Vec<u8>> {
     .boxed()
 }
 
+fn splice_first_slash(name: &[u8], with: &[u8]) -> Vec<u8> {
+    match name.iter().position(|b| *b == b'/') {
+        Some(i) => [&name[..i], with, &name[i + 1..]].concat(),
+        None => name.to_vec(),
+    }
+}
+
 /// a file name of 1-3 components on which the classification rule is unambiguous
 pub fn name() -> BoxedStrategy<Vec<u8>> {
     (prop::collection::vec(component(), 0..=2), prop_oneof![3 => component(), 2 => patch_component()])
@@ -56,7 +69,16 @@ pub fn name() -> BoxedStrategy<Vec<u8>> {
             if last.len() % 16 == 3 && !parts.is_empty() {
                 parts.insert(0, b".".to_vec());
             }
-            let joined = parts.join(&b"/"[..]);
+            // doubled / trailing / leading '/' and an interior "." (1 name in 10)
+            let mut joined = parts.join(&b"/"[..]);
+            match last.iter().map(|b| *b as usize).sum::<usize>() % 50 {
+                0 => joined = splice_first_slash(&joined, b"//"),
+                1 => joined.push(b'/'),
+                2 => joined = splice_first_slash(&joined, b"/./"),
+                3 => joined.insert(0, b'/'),
+                4 => joined.extend_from_slice(b"//"),
+                _ => {}
+            }
             if m::unambiguous(&joined) {
                 joined
             } else {
@@ -116,7 +138,30 @@ pub fn doc(max_files: usize) -> BoxedStrategy<Doc> {
                     }
                 }
             }
+            // names that are a prefix / a suffix of another name, adjacent or apart
+            if let Some((n, c, s)) = files.last().cloned() {
+                let k = n.iter().map(|b| *b as usize).sum::<usize>();
+                let twin: Option<Vec<u8>> = match k % 12 {
+                    0 => Some([n.clone(), b".asc".to_vec()].concat()),
+                    1 => Some([n.clone(), b".sig".to_vec()].concat()),
+                    2 => Some([b"lib".to_vec(), n.clone()].concat()),
+                    3 => Some([b"x".to_vec(), n.clone()].concat()),
+                    4 if n.len() > 1 => Some(n[..n.len() - 1].to_vec()),
+                    5 if n.len() > 1 => Some(n[1..].to_vec()),
+                    _ => None,
+                };
+                if let Some(t) = twin {
+                    if m::name_in_domain(&t) && !t.starts_with(b"/") {
+                        let at = if k % 2 == 0 { files.len() } else { 0 };
+                        files.insert(at, (t, c.clone(), s.map(|x| x.wrapping_add(1))));
+                    }
+                }
+            }
+            let mut seen_keys = std::collections::BTreeSet::new();
             for (name, checksums, size) in files {
+                if !seen_keys.insert(m::path_key(&name)) {
+                    continue;
+                }
                 if !seen.insert(name.clone()) {
                     continue;
                 }
